@@ -5,6 +5,7 @@ import Model.Lib.Barrel
 import Model.Lib.Adders
 import Model.Gen.Conv
 import Model.Lib.Muxes
+import Model.Pass.Cond
 /-! `basic` command: the Lean models of the bit-level generators on concrete operands. -/
 open Lean
 namespace Pyrtl.Drv
@@ -144,5 +145,37 @@ def cmdMuxes (j : Lean.Json) : Except String Lean.Json := do
       pure [prioritizedMux (n + 1) ((c.take n).map (· != 0)) (c.drop n)]
     | _ => throw s!"unknown muxes fn {fn}"
   return Lean.Json.mkObj [("ok", .bool true), ("vals", .arr (rows.map fun r => Lean.Json.arr (r.map natJson).toArray).toArray)]
+
+end Pyrtl.Drv
+
+namespace Pyrtl.Drv
+open Pyrtl.Cond
+
+def parseGuard (j : Lean.Json) : Except String Guard :=
+  match j with
+  | .str "o" => pure .otherwise
+  | _ => do return .pred (← jNat j)
+
+/-- `cond` command.  targets: [{default: n, asgs: [{stack: [[guards...]...], rhs: n}]}],
+    valuations: [[bits of predicates]]; reply: per target conflict flag and per valuation the value
+    of the select chain and the number of active assignments. -/
+def cmdCond (j : Lean.Json) : Except String Lean.Json := do
+  let targets ← jArr (← field j "targets")
+  let vals ← (← jArr (← field j "valuations")).toList.mapM jNatList
+  let outs ← targets.toList.mapM fun t => do
+    let dflt ← jNat (fieldD t "default" (natJson 0))
+    let asgs ← (← jArr (← field t "asgs")).toList.mapM fun a => do
+      let stack ← (← jArr (← field a "stack")).toList.mapM fun lvl => do
+        (← jArr lvl).toList.mapM parseGuard
+      let rhs ← jNat (← field a "rhs")
+      return (currentSelect stack, rhs, stack)
+    let conflict := anyConflict (asgs.map (·.1))
+    let rows := vals.map fun v =>
+      let ρ : Nat → Bool := fun i => v.getD i 0 != 0
+      let nactive := (asgs.filter fun a => holds ρ a.1).length
+      let specAgree := asgs.all fun a => holds ρ a.1 == activeSpec ρ a.2.2
+      Lean.Json.arr #[natJson (chain ρ dflt (asgs.map fun a => (a.1, a.2.1))), natJson nactive, .bool specAgree]
+    return Lean.Json.mkObj [("conflict", .bool conflict), ("rows", .arr rows.toArray)]
+  return Lean.Json.mkObj [("ok", .bool true), ("targets", .arr outs.toArray)]
 
 end Pyrtl.Drv
